@@ -424,7 +424,11 @@ class WithOptions(Evaluatable[B]):
 
     def _supplies(self, key: str, options: Options) -> bool:
         """Whether the value under the key is determined by the pre-set options alone."""
-        if not dotted_key_exists(key, self.options):
+        try:
+            if not dotted_key_exists(key, self.options):
+                return False
+        except TypeError:
+            # The pre-set options hold a non-section value at a prefix of the key
             return False
         if self.force and not isinstance(get_dotted_key(key, self.options), Mapping):
             return True
